@@ -324,3 +324,55 @@ def inplace_on_cached(ctx, site):
                     if isinstance(b, ast.Name) and b.id in aliases:
                         bad.append(s_)
     return bad
+
+
+_MUTATORS = ('add', 'append', 'extend', 'update', 'insert', 'remove', 'pop', 'clear', 'discard')
+
+
+def cached_read_while_built(ctx):
+    """[(cached property, reader function, mutators reachable from the reader)]: a `cached_property` computed from a
+    collection that is still being filled in place (`x.geo.add(..)`, `x.pulses.append(..)` outside constructors) is
+    read by a function from which such a fill is reachable: the value is frozen while its sources are under
+    construction, everything added later is missing from it for good.  Readers are resolved by the class of the
+    receiver (typed effects), sources by attribute name."""
+    m = ctx.model
+    prog = ctx.program
+    mut = {}
+    for g in m.all_funcs():
+        if g.name == '__init__':
+            continue
+        for x in walk_no_nested(g.node):
+            if isinstance(x, ast.Call) and isinstance(x.func, ast.Attribute) and x.func.attr in _MUTATORS:
+                r = x.func.value
+                while isinstance(r, ast.Subscript):
+                    r = r.value
+                if isinstance(r, ast.Attribute):
+                    mut.setdefault(r.attr, set()).add(g.qual)
+    clos = {}
+
+    def closure(q):
+        if q not in clos:
+            clos[q] = set(prog.closure([m.funcs[q]]))
+        return clos[q]
+    out = []
+    n = 0
+    for ci in m.classes.values():
+        for nm, g in ci.methods.items():
+            if g.kind != 'cached_property':
+                continue
+            n += 1
+            reads = {x.attr for x in ast.walk(g.node) if isinstance(x, ast.Attribute) and isinstance(x.ctx, ast.Load)}
+            M = set()
+            for a in reads:
+                M |= mut.get(a, set())
+            if not M:
+                continue
+            readers = {e.func.qual for q, es in prog.effects.items() for e in es
+                       if e.attr == nm and e.mode == 'read' and e.cls == ci.name}
+            for fq in sorted(readers):
+                if fq == g.qual or fq not in m.funcs:
+                    continue
+                hit = M & closure(fq)
+                if hit:
+                    out.append((g, m.funcs[fq], sorted(hit)))
+    return out, n
